@@ -21,6 +21,10 @@ use rs_matter::im::subscriptions::{ReportContext, Subscriptions, SubscriptionsBu
 use rs_matter::im::IMBuffer;
 use rs_matter::utils::storage::pooled::{Buffers, PooledBuffers};
 
+/// system-level stream: the real reporter / responder tasks on the simulated network
+#[path = "c13_sys.rs"]
+mod sys;
+
 const POOL: usize = 6;
 type Pool = PooledBuffers<IMBuffer, POOL>;
 
@@ -482,7 +486,9 @@ fn gen_case<const N: usize>(id: u64, r: &mut Rng, thorough: bool, out: &mut Out)
 pub fn gen(a: &Args) -> String {
     let mut r = Rng::new(a.seed);
     let mut out = Out::default();
-    out.buf.push_str("#rule a case is one interleaving on a fresh real Subscriptions<N> table (N in 1..4) of attribute changes (hot paths, bursts overflowing the 16-entry table, wildcards), subscription adds whose priming context stays open, reporter report begins with their contexts kept open, keep/retry/drop endings, purges, removals by peer and by expiry, next_report_at queries, under a monotone clock with steps around the negotiated intervals; non-trivial = a change was recorded while a subscription was outside the table, a report was begun and a purge ran; distinct = by operation list\n");
+    out.buf.push_str("#rule a case is one interleaving on a fresh real Subscriptions<N> table (N in 1..4) of attribute changes (hot paths, bursts overflowing the 16-entry table, wildcards), subscription adds whose priming context stays open, reporter report begins with their contexts kept open, keep/retry/drop endings, purges, removals by peer and by expiry, next_report_at queries, under a monotone clock with steps around the negotiated intervals; non-trivial = a change was recorded while a subscription was outside the table, a report was begun and a purge ran; distinct = by operation list; ");
+    out.buf.push_str(sys::RULE);
+    out.buf.push('\n');
     let n_cases = if a.thorough { 40000 } else { 4000 };
     for id in 0..n_cases {
         let mut cr = r.fork();
@@ -493,6 +499,7 @@ pub fn gen(a: &Args) -> String {
             _ => gen_case::<4>(id, &mut cr, a.thorough, &mut out),
         }
     }
+    sys::gen(&mut out, &mut r, a.thorough, n_cases);
     out.finish()
 }
 
@@ -500,7 +507,11 @@ pub fn replay(a: &Args) -> String {
     let text = std::fs::read_to_string(a.input.as_ref().expect("--in")).expect("read input");
     let mut out = Out::default();
     for c in parse_cases(&text) {
-        replay_case(&mut out, &c);
+        if c.kind.starts_with("sys") {
+            sys::replay_case(&mut out, &c);
+        } else {
+            replay_case(&mut out, &c);
+        }
     }
     out.finish()
 }
